@@ -227,7 +227,18 @@ def job_fa(P, kind, K, perms):
                 P.run("%s-%s-%s-%s" % (kind, "".join(map(str, perm)), "".join(str(rl[k]) for k in range(K)), "bag" if dask else "list"), sc_fa_perm, dict(kind=kind, perm=perm, relabel=rl, dask=dask), validate=1 if perm == (2, 0, 1) else 0)
 
 
+def sc_no_ubm(B):
+    """estimators can be configured without a UBM (it is trained later, from the arrays)"""
+    famod = B.mod("factor_analysis")
+    a = famod.ISVMachine(r_U=2, ubm=None, ubm_kwargs=dict(n_gaussians=2))
+    b = famod.JFAMachine(r_U=2, r_V=1, ubm=None, ubm_kwargs=dict(n_gaussians=2))
+    o = Outcome()
+    o.claim("constructed-without-ubm", a.ubm is None and b.ubm is None and a.r_U == 2 and b.r_V == 1)
+    return o
+
+
 def job_seed(P):
+    P.run("construct-without-ubm", sc_no_ubm, {}, validate=1)
     for kind in ("isv", "jfa"):
         for seed in (0, 5):
             P.run("seed-%s-%d" % (kind, seed), sc_seed_fa, dict(kind=kind, seed=seed), validate=0)
